@@ -1217,13 +1217,29 @@ impl<'ast, 'res> Resolver<'ast, 'res> {
                 .join(ExprClass::PureMayTrap),
             Expr::Binary { op, lhs, rhs, .. } => {
                 let class = self.classify_expr(lhs).join(self.classify_expr(rhs));
-                if matches!(op, BinaryOp::Divide | BinaryOp::Mod) {
+                // Division can fail on its divisor. Any operator can end in a runtime type
+                // mismatch unless both operands are known to have one and the same plain type.
+                let operands_fit = match (self.infer_expr_type(lhs), self.infer_expr_type(rhs)) {
+                    (Some(l), Some(r)) => {
+                        l == r
+                            && matches!(l, ValueType::Number | ValueType::String | ValueType::Bool)
+                    }
+                    _ => false,
+                };
+                if matches!(op, BinaryOp::Divide | BinaryOp::Mod) || !operands_fit {
                     class.join(ExprClass::PureMayTrap)
                 } else {
                     class
                 }
             }
-            Expr::Unary { expr, .. } => self.classify_expr(expr),
+            Expr::Unary { expr, .. } => {
+                let class = self.classify_expr(expr);
+                let operand_fits = matches!(
+                    self.infer_expr_type(expr),
+                    Some(ValueType::Number | ValueType::Bool | ValueType::Null)
+                );
+                if operand_fits { class } else { class.join(ExprClass::PureMayTrap) }
+            }
             Expr::Member { object, .. } => self.classify_expr(object),
             Expr::Call { callee, args, .. } => {
                 let mut class = args
@@ -1235,6 +1251,14 @@ impl<'ast, 'res> Resolver<'ast, 'res> {
                     Expr::Var(func_name, ..) => {
                         if let Some(builtin) = GlobalBuiltin::from_name(func_name) {
                             class = class.join(effects::global_builtin_class(builtin));
+                            // `command` takes a string; anything else is a runtime type mismatch.
+                            if matches!(builtin, GlobalBuiltin::Command)
+                                && args.args.first().is_some_and(|arg| {
+                                    self.infer_expr_type(arg) != Some(ValueType::String)
+                                })
+                            {
+                                class = class.join(ExprClass::PureMayTrap);
+                            }
                         } else if self.lookup_func(func_name).is_none() {
                             class = class.join(ExprClass::Impure);
                         }
@@ -1261,6 +1285,29 @@ impl<'ast, 'res> Resolver<'ast, 'res> {
                             _ => false,
                         };
                         if !receiver_has_method {
+                            class = class.join(ExprClass::PureMayTrap);
+                        }
+                        // The same goes for the arguments of the pure methods that take any.
+                        let expected = match MemberBuiltin::from_name(field) {
+                            Some(MemberBuiltin::String(StringBuiltin::Slice)) => {
+                                Some(ValueType::Number)
+                            }
+                            Some(
+                                MemberBuiltin::String(
+                                    StringBuiltin::Find
+                                    | StringBuiltin::Replace
+                                    | StringBuiltin::Split,
+                                )
+                                | MemberBuiltin::Array(ArrayBuiltin::Join),
+                            ) => Some(ValueType::String),
+                            _ => None,
+                        };
+                        if let Some(expected) = expected
+                            && args
+                                .args
+                                .iter()
+                                .any(|arg| self.infer_expr_type(arg) != Some(expected))
+                        {
                             class = class.join(ExprClass::PureMayTrap);
                         }
                     }
